@@ -262,12 +262,19 @@ class DiffXWriter(object):
         #       important at all for JSON metadata, and isn't a helpful
         #       parser aid. This may need to be revisited in the future if
         #       a different metadata format is ever provided.
+        content = json.dumps(metadata,
+                             indent=4,
+                             separators=(',', ': '),
+                             sort_keys=True)
+
+        if not (encoding or self._cur_encoding):
+            # There's no encoding in effect for this section. The serialized
+            # JSON is pure ASCII, so it can be written as a byte string.
+            content = content.encode('ascii')
+
         self._new_content_section(
             section_name='meta',
-            content=json.dumps(metadata,
-                               indent=4,
-                               separators=(',', ': '),
-                               sort_keys=True),
+            content=content,
             encoding=encoding,
             format=meta_format,
             write_line_endings_option=False)
